@@ -73,7 +73,8 @@ BOUNDS = dict(values="every string of length <=5 (thorough 6) over the alphabet 
               shapes="two array arguments + returned array, rank 0..2, sizes unbounded")
 STUBS = ["os.environ inside jaxtyping._config -> dict stub (mapping str -> str contract)", "SymStr"] + c01.STUBS
 ASSUMPTIONS = ["ASCII only: str.lower() on non-ASCII case mappings is outside the claim",
-               "'same exception' = same class and args, not same traceback"]
+               "'same exception' = same class and args, not same traceback",
+               "typing.no_type_check is placed directly above / below the jaxtyped decorator of the function; on top of a jaxtyped staticmethod/classmethod *object* the flag is not observable at call time and is outside the claim"]
 REQUIRED_LABELS = {"value", "nonstring", "disabled-is-plain", "enabled-checks", "notypecheck-is-plain", "ctx-toggle"}
 REQUIRED_WITNESS = {"val-True", "val-False", "val-ValueError", "call-disabled", "call-enabled-OK", "call-enabled-TCE"}
 BUDGET_S = {"quick": 120, "thorough": 900}
